@@ -37,6 +37,10 @@ rep=sorted(glob.glob('selftest/repairs/*.patch'))
 out=[]; problems=0
 with ThreadPoolExecutor(max_workers=14) as ex:
     results=dict((p,(st,h)) for p,st,h in ex.map(run,mut+seeds+ben+rep))
+for patch in seeds:
+    # seeds are applied to /repo with `git apply`, which takes no fuzz: tools/refresh_seed_patch.sh regenerates one that drifted
+    if subprocess.run(['git','-C','/repo','apply','--check',os.path.join('/verif',patch)],capture_output=True).returncode!=0:
+        print('PROBLEM: seed applies only with fuzz (run tools/refresh_seed_patch.sh)',patch); problems+=1
 for patch in mut+seeds:
     st,hits=results[patch]
     if st!='ok':
